@@ -153,6 +153,29 @@ theorem C14_cfg_preserves (lines : List String) (lastDep : String) (reqs new : L
       rw [List.drop_left' this]
     · simp; omega
 
+/-- **C14 (setup.cfg gains each requirement once, right after the last dependency).** -/
+theorem C14_cfg_each_once (lines : List String) (lastDep : String) (reqs new : List String)
+    (h : cfgBuildNewline lines lastDep reqs = some new) :
+    ∃ idx, idx < lines.length ∧ ∀ k (hk : k < reqs.length),
+      new[idx + 1 + k]? = some (leadingWs (lines.getD idx "") ++ reqs[k] ++ "\n") := by
+  unfold cfgBuildNewline at h
+  cases hi : (lines.map stripS).idxOf? lastDep with
+  | none => simp [hi] at h
+  | some idx =>
+    simp only [hi, Option.some.injEq] at h
+    subst h
+    have hlt : idx < lines.length := by
+      have := List.idxOf?_eq_some_iff.mp hi
+      obtain ⟨h1, _⟩ := this
+      simpa using h1
+    refine ⟨idx, hlt, ?_⟩
+    intro k hk
+    have hlen : (lines.take idx ++ [terminate (lines.getD idx "")]).length = idx + 1 := by simp; omega
+    rw [List.append_assoc (lines.take idx ++ [terminate (lines.getD idx "")]), List.getElem?_append_right (by omega)]
+    simp only [hlen, Nat.add_sub_cancel_left]
+    rw [List.getElem?_append_left (by simpa using hk)]
+    simp [hk]
+
 /-- a line that has its terminator is left as it is: for a manifest whose dependency lines all end in a
 newline the writer only inserts -/
 theorem terminate_of_terminated (s : String) (h : s.endsWith "\n" = true) : terminate s = s := by simp [terminate, h]
